@@ -77,6 +77,12 @@ class AssignPropertyOpcode(Param1Opcode):
             op.left = PropertyAccessorOperation(Node('me', index),
                                                 context.name_list[op1],
                                                 index)
+        elif context.name_list[op1] in get_keys(KNOWN_PROPERTIES):
+            # Same object as LoadPropertyOpcode uses to read the property
+            obj: Node = LocalVariable(
+                KNOWN_PROPERTIES[context.name_list[op1]], index)
+            op.left = PropertyAccessorOperation(obj, context.name_list[op1],
+                                                index)
         else:    
             op.left = PropertyName(context.name_list[op1], index)
         op.right = stack.pop()
